@@ -87,7 +87,25 @@ package database
 //@   pure
 //@ func getCurrentPlatform
 //@   pure
-//@ pure func platOK(c *Command, o SearchOptions) bool = o.AllPlatforms || len(c.Platform) == 0 || isPlatformCompatible(c.Platform, getCurrentPlatform()) || isCrossPlatformTool(c.Command)
+//@ func declaresPlatform
+//@   pure
+//@ func declaresCrossPlatform
+//@   pure
+// The platform filter as the property states it: a command that declares platforms is eligible
+// when it declares a platform in force (the requested ones, otherwise the host) or, unless
+// cross-platform entries are excluded, carries the cross-platform tag or is a recognised tool.
+//@ pure func allowedSpec(c *Command, o SearchOptions) bool = (len(o.Platforms) == 0 && declaresPlatform(c.Platform, getCurrentPlatform())) || (exists i int :: 0 <= i && i < len(o.Platforms) && declaresPlatform(c.Platform, o.Platforms[i])) || (!o.NoCrossPlatform && (declaresCrossPlatform(c.Platform) || isCrossPlatformTool(c.Command)))
+//@ pure func platOK(c *Command, o SearchOptions) bool = o.AllPlatforms || len(c.Platform) == 0 || allowedSpec(c, o)
+//@ func platformAllowed
+//@   requires doc != nil && currentPlatform == getCurrentPlatform()
+//@   modifies nothing
+//@   ensures[C04.platform-gate] result <==> allowedSpec(doc, options)
+//@ loop 1
+//@   invariant forall i int :: 0 <= i && i < $i ==> !declaresPlatform(doc.Platform, options.Platforms[i])
+//@ func (*Database).passesFilters
+//@   requires doc != nil && currentPlatform == getCurrentPlatform()
+//@   modifies nothing
+//@   ensures[C04.filters] result <==> (platOK(doc, options) && pipeOK(doc, options))
 //@ pure func pipeOK(c *Command, o SearchOptions) bool = !o.PipelineOnly || isPipelineCommand(c)
 //@ pure func gatesOK(r []SearchResult, o SearchOptions) bool = forall k int :: 0 <= k && k < len(r) ==> platOK(r[k].Command, o) && pipeOK(r[k].Command, o)
 
